@@ -133,50 +133,36 @@ theorem pinv_comp {n : Nat} {g : AggGraph α} {rows : List (Row (HInf α))} {com
     omega
 
 omit [OfNat α 1] in
-/-- the nearest neighbour returned by the loop is one of the neighbours scanned -/
-theorem nearest_mem (round32 : α → α) (g : AggGraph α) (node : Nat) :
-    ∀ (nbrs : List Nat) (acc res : Option Nat × Option α),
-      nbrs.foldlM (fun (st : Option Nat × Option α) neighbor =>
-        let sim := similarity round32 g node neighbor
-        if simGt sim st.2 then (pure (some neighbor, sim) : Except PyErr _)
-        else if simEq sim st.2 then
-          match st.1 with
-          | some nn => pure (some (min neighbor nn), st.2)
-          | none => throw .valueError
-        else pure st) acc = .ok res →
-      ∀ x, res.1 = some x → x ∈ nbrs ∨ acc.1 = some x := by
-  intro nbrs
-  induction nbrs with
-  | nil =>
-    intro acc res h x hx
-    simp only [List.foldlM, pure, Except.pure, Except.ok.injEq] at h
-    subst h; exact Or.inr hx
+theorem scan_mem (round32 : α → α) (g : AggGraph α) (node : Nat) :
+    ∀ (ks : List Nat) (acc : Nat × Option α),
+      (ks.foldl (scanStep round32 g node) acc).1 ∈ ks ∨ (ks.foldl (scanStep round32 g node) acc).1 = acc.1 := by
+  intro ks
+  induction ks with
+  | nil => intro acc; exact Or.inr rfl
   | cons k ks ih =>
-    intro acc res h x hx
-    simp only [List.foldlM, bind, Except.bind] at h
-    split at h
-    · cases h
-    · rename_i acc' hacc'
-      rcases ih acc' res h x hx with h1 | h1
-      · exact Or.inl (List.mem_cons_of_mem _ h1)
-      · -- acc'.1 = some x: it came from this step
-        split at hacc'
-        · simp only [pure, Except.pure, Except.ok.injEq] at hacc'
-          subst hacc'
-          simp only [Option.some.injEq] at h1
-          exact Or.inl (h1 ▸ List.mem_cons_self)
-        · split at hacc'
-          · split at hacc'
-            · rename_i nn hnn
-              simp only [pure, Except.pure, Except.ok.injEq] at hacc'
-              subst hacc'
-              simp only [Option.some.injEq] at h1
-              by_cases hle : k ≤ nn
-              · rw [Nat.min_eq_left hle] at h1; exact Or.inl (h1 ▸ List.mem_cons_self)
-              · rw [Nat.min_eq_right (by omega)] at h1; exact Or.inr (by rw [hnn, h1])
-            · cases hacc'
-          · simp only [pure, Except.pure, Except.ok.injEq] at hacc'
-            subst hacc'; exact Or.inr h1
+    intro acc
+    simp only [List.foldl_cons]
+    rcases ih (scanStep round32 g node acc k) with h | h
+    · exact Or.inl (List.mem_cons_of_mem _ h)
+    · rw [h]
+      unfold scanStep
+      simp only
+      split
+      · exact Or.inl List.mem_cons_self
+      · split
+        · by_cases hle : k ≤ acc.1
+          · rw [Nat.min_eq_left hle]; exact Or.inl List.mem_cons_self
+          · rw [Nat.min_eq_right (by omega)]; exact Or.inr rfl
+        · exact Or.inr rfl
+
+omit [OfNat α 1] in
+/-- the nearest neighbour returned by the loop is one of the neighbours scanned -/
+theorem nearest_mem (round32 : α → α) (g : AggGraph α) (node k : Nat) (ks : List Nat) :
+    (nearest round32 g node k ks).1 ∈ k :: ks := by
+  unfold nearest
+  rcases scan_mem round32 g node ks (k, similarity round32 g node k) with h | h
+  · exact List.mem_cons_of_mem _ h
+  · rw [h]; exact List.mem_cons_self
 
 theorem chainStep_pinv {n : Nat} (round32 : α → α) (n0 : Nat) {st st1 : PState α} {L : Dict Nat}
     (h : PInv n st.g st.rows st.comps L) (hs : chainStep round32 n0 st = .ok (some st1)) :
@@ -198,29 +184,23 @@ theorem chainStep_pinv {n : Nat} (round32 : α → α) (n0 : Nat) {st st1 : PSta
         · rename_i sz hsz
           simp only [Except.ok.injEq, Option.some.injEq] at hs; subst hs
           exact ⟨L, pinv_comp h hsz⟩
-      · split at hs
-        · cases hs
-        · rename_i nn ms hnear
-          split at hs
+      · rename_i k ks hnb
+        split at hs
+        · split at hs
           · split at hs
-            · split at hs
-              · cases hs
-              · split at hs
-                · rename_i s1 s2 h1 h2
-                  simp only [Except.ok.injEq, Option.some.injEq] at hs; subst hs
-                  -- nn is a neighbour different from node
-                  have hmem := nearest_mem round32 g node _ (none, none) _ hnear nn rfl
-                  have hne : node ≠ nn := by
-                    rcases hmem with hm | hm
-                    · have := (List.mem_filter.mp hm).2
-                      simp only [bne_iff_ne, ne_eq] at this
-                      exact fun e => this e.symm
-                    · cases hm
-                  exact pinv_merge h h1 h2 hne _
-                · cases hs
-            · simp only [Except.ok.injEq, Option.some.injEq] at hs; subst hs; exact ⟨L, h⟩
+            · rename_i s1 s2 h1 h2
+              simp only [Except.ok.injEq, Option.some.injEq] at hs; subst hs
+              -- nn is a neighbour different from node
+              have hmem := nearest_mem round32 g node k ks
+              rw [← hnb] at hmem
+              have hne : node ≠ (nearest round32 g node k ks).1 := by
+                have := (List.mem_filter.mp hmem).2
+                simp only [bne_iff_ne, ne_eq] at this
+                exact fun e => this e.symm
+              exact pinv_merge h h1 h2 hne _
+            · cases hs
           · simp only [Except.ok.injEq, Option.some.injEq] at hs; subst hs; exact ⟨L, h⟩
-        · cases hs
+        · simp only [Except.ok.injEq, Option.some.injEq] at hs; subst hs; exact ⟨L, h⟩
 
 theorem chainStep_done (round32 : α → α) (n0 : Nat) {st : PState α} (hs : chainStep round32 n0 st = .ok none) :
     st.g.sizes = [] := by
@@ -236,13 +216,8 @@ theorem chainStep_done (round32 : α → α) (n0 : Nat) {st : PState α} (hs : c
       split at hs
       · split at hs <;> cases hs
       · split at hs
-        · cases hs
         · split at hs
-          · split at hs
-            · split at hs
-              · cases hs
-              · split at hs <;> cases hs
-            · cases hs
+          · split at hs <;> cases hs
           · cases hs
         · cases hs
 
